@@ -1,6 +1,8 @@
 package main
 
 import (
+	"fmt"
+
 	tmaps "gopkg.in/typ.v4/maps"
 	"gopkg.in/typ.v4/sets"
 	"gopkg.in/typ.v4/sync2"
@@ -20,21 +22,27 @@ func obsSet(s sets.Set[int], nu int) M {
 	str := s.String()
 	has := make([]bool, nu)
 	for v := 1; v <= nu; v++ {
-		has[v-1] = s.Has(v)
+		has[v-1] = s.Has(v - 1) // element ids 1..nu in the trace are the Go values 0..nu-1: the zero value is a member like any other
 	}
 	rng := []int{}
-	s.Range(func(v int) bool { rng = append(rng, v); return true })
-	return M{"sl": nz(s.Slice()), "len": ln, "has": has, "rng": rng, "str": str}
+	s.Range(func(v int) bool { rng = append(rng, v+1); return true })
+	if ln == 1 && len(rng) == 1 { // String() of a singleton prints the Go value; rewrite it in ids for the validator
+		if str == fmt.Sprintf("{%d}", rng[0]-1) {
+			str = fmt.Sprintf("{%d}", rng[0])
+		}
+	}
+	return M{"sl": ids1(s.Slice()), "len": ln, "has": has, "rng": rng, "str": str}
 }
 
 func buildSet(spec M) (sets.Set[int], M) {
 	kind := str(spec, "kind")
 	init := ints(spec, "init")
+	goinit := dec1(init)
 	var s sets.Set[int]
 	if kind == "sync2" {
-		s = sync2.NewSetFromSlice(init)
+		s = sync2.NewSetFromSlice(goinit)
 	} else {
-		s = tmaps.NewSetFromSlice(init)
+		s = tmaps.NewSetFromSlice(goinit)
 	}
 	hist := []M{}
 	h, _ := spec["hist"].([]any)
@@ -44,11 +52,11 @@ func buildSet(spec M) (sets.Set[int], M) {
 		r := M{"op": op, "k": k, "rok": false, "rv": 0}
 		switch op {
 		case "Add":
-			r["rok"] = s.Add(k)
+			r["rok"] = s.Add(k - 1)
 		case "Remove":
-			r["rok"] = s.Remove(k)
+			r["rok"] = s.Remove(k - 1)
 		case "Has":
-			r["rok"] = s.Has(k)
+			r["rok"] = s.Has(k - 1)
 		case "Len":
 			r["rv"] = s.Len()
 		}
@@ -99,17 +107,17 @@ func driveSets(plan []M, out *Out, _ []string) {
 			case "Product":
 				prod := [][]int{}
 				for _, pr := range sets.CartesianProduct(a, b) {
-					prod = append(prod, []int{pr.A, pr.B})
+					prod = append(prod, []int{pr.A + 1, pr.B + 1})
 				}
 				e["prod"] = prod
 			case "RangeStop":
 				vis := []int{}
 				if n > 0 {
-					a.Range(func(v int) bool { vis = append(vis, v); return len(vis) < n })
+					a.Range(func(v int) bool { vis = append(vis, v+1); return len(vis) < n })
 				}
 				e["vis"] = vis
 			case "Ctor":
-				vals := ints(p, "vals")
+				vals := dec1(ints(p, "vals"))
 				switch str(p, "ctor") {
 				case "maps.Slice":
 					r = tmaps.NewSetFromSlice(vals)
@@ -136,13 +144,13 @@ func driveSets(plan []M, out *Out, _ []string) {
 			e["a1"], e["b1"], e["r1"] = obsSet(a, nu), obsSet(b, nu), obsSet(r, nu)
 			// detachment probes
 			if r != nil && op != "Ctor" {
-				r.Add(px)
-				r.Remove(py)
+				r.Add(px - 1)
+				r.Remove(py - 1)
 			}
 			e["a2"], e["b2"], e["r2"] = obsSet(a, nu), obsSet(b, nu), obsSet(r, nu)
 			if r != nil && op != "Ctor" {
-				a.Add(py)
-				a.Remove(px)
+				a.Add(py - 1)
+				a.Remove(px - 1)
 			}
 			e["a3"], e["r3"] = obsSet(a, nu), obsSet(r, nu)
 		})
@@ -159,4 +167,12 @@ func driveSets(plan []M, out *Out, _ []string) {
 		}
 		out.Emit(e)
 	}
+}
+
+func dec1(xs []int) []int {
+	out := make([]int, len(xs))
+	for i, x := range xs {
+		out[i] = x - 1
+	}
+	return out
 }
